@@ -133,6 +133,19 @@ def main():
                     out.append({"tag": step.get("tag"), "hash": tree_hash(d)[0], "files": tree_hash(d)[1], "per_file": file_hashes(d), "canon": canonical_ode(d)})
                 except Exception as e:
                     out.append({"tag": step.get("tag"), "error": f"{type(e).__name__}: {e}"[:300]})
+            elif op == "patch":
+                # the host-code patch of the network (`naunet render --patch enzo` does this after the sources were rendered)
+                from naunet.patches import EnzoPatch
+                d = root / f"p{n}"
+                d.mkdir()
+                try:
+                    EnzoPatch("cpu").render(nets[step["id"]], path=d)
+                    h = hashlib.sha256()
+                    for q in sorted(x for x in d.rglob("*") if x.is_file()):
+                        h.update(str(q.relative_to(d)).encode() + b"\0" + q.read_bytes() + b"\0")
+                    out.append({"tag": step.get("tag"), "hash": h.hexdigest()})
+                except Exception as e:
+                    out.append({"tag": step.get("tag"), "error": f"{type(e).__name__}: {e}"[:300]})
             elif op == "cli_init":
                 from cleo.testers.command_tester import CommandTester
                 from naunet.console.application import Application
